@@ -75,6 +75,7 @@ TRANSLATORS = {
     "GenRestore": "gen_restore",
     "GenRoutes": "gen_routes",
     "GenSave": "gen_save",
+    "GenSemiAsync": "gen_semiasync",
 }
 
 
